@@ -162,10 +162,13 @@ def State.load (s : State) (a : Nat) : Except Fault Word :=
   else if s.readable a = false then .error (.memRead a)
   else .ok (s.mem a)
 
+/-- memory update: the qword at address `a` becomes `v` -/
+def setMem (m : Nat → Word) (a : Nat) (v : Word) : Nat → Word := fun k => if k = a then v else m k
+
 def State.store (s : State) (a : Nat) (v : Word) : Except Fault State :=
   if a % 8 ≠ 0 then .error (.misaligned a)
   else if s.writable a = false then .error (.memWrite a)
-  else .ok { s with mem := fun k => if k = a then v else s.mem k }
+  else .ok { s with mem := setMem s.mem a v }
 
 /-- keep the low `w.bits` bits -/
 def trunc (w : Width) (v : Word) : Word :=
